@@ -480,7 +480,9 @@ pub fn run_seq(pc: &PropCfg, knobs: &Knobs, env: &Env, mut src: Source, stats: &
 
         // C01 & friends: conformance to the reference model
         let mut model_ok = true;
-        if integrity_ok && !matches!(out, Outcome::Panic(_)) {
+        // (judged on the observable tree even when the internal indexes disagree: a damaged index
+        // shows up here as soon as a listing or query observes it)
+        if !snap.poisoned && !matches!(out, Outcome::Panic(_)) {
             if let Err((oracle, what, detail)) = judge(&m, &op, &out, &m.t, &real, &pc.strict) {
                 model_ok = false;
                 step_violations.push(Violation {
@@ -564,9 +566,7 @@ pub fn run_seq(pc: &PropCfg, knobs: &Knobs, env: &Env, mut src: Source, stats: &
 
         // adopt the real state (it equals the accepted alternative up to free fields) and continue
         let pre = m.t.clone();
-        if integrity_ok {
-            m.t = real.clone();
-        }
+        m.t = real.clone();
         m.after(&op, &out, &pre);
         pre_snap_tree = real;
 
@@ -595,7 +595,11 @@ pub fn run_seq(pc: &PropCfg, knobs: &Knobs, env: &Env, mut src: Source, stats: &
                 stop = true;
             }
         }
-        if !integrity_ok || (!model_ok && false) {
+        let _ = model_ok;
+        // a breach that is not this property's business does not end the run: its observable
+        // consequences (a listing that misses an entry, data that survives its file) are exactly
+        // what the other oracles are there to see. A poisoned lock ends every run.
+        if snap.poisoned || (!integrity_ok && pc.integrity_oracle) {
             stop = true;
         }
         if stop {
